@@ -1,7 +1,1149 @@
-//! C25 — not built yet.
-use vcore::Ctx;
+//! C25 — WebSocket sessions follow the graphql-transport-ws and the legacy subscriptions-transport-ws protocol.
+//!
+//! `http::WebSocket` is driven with a scripted peer: a client message stream (`vcore::det::Chan`), a fake
+//! `Executor` whose `execute_stream` hands out harness-controlled streams, init / ping callbacks that wait on
+//! gates, and a manual keep-alive timer. Everything the server does is written to one ordered event log
+//! (client message *read* by the server, executor called, init callback result, message sent, stream ended) and
+//! a protocol monitor written from the two protocol documents judges that log.
+use async_graphql::http::{WebSocket, WebSocketProtocols, WsMessage};
+use async_graphql::runtime::Timer;
+use async_graphql::{Data, Error, Executor, Request, Response, Value as GValue};
+use futures_util::future::BoxFuture;
+use futures_util::stream::{BoxStream, Stream};
+use futures_util::task::noop_waker;
+use serde_json::Value as Json;
+use std::collections::{BTreeMap, BTreeSet};
+use std::future::Future;
+use std::pin::Pin;
+use std::sync::{Arc, Mutex};
+use std::task::{Context, Poll};
+use std::time::{Duration, Instant};
+use vcore::det::{Chan, ChanRx, Gates};
+use vcore::{json, Case, Ctx, Src};
 
-pub fn run(_ctx: &mut Ctx) {
-    eprintln!("C25: check not built yet");
-    std::process::exit(2);
+/// duplicate live id is not closed with 4409 (graphql-transport-ws): the new operation silently replaces the old
+const F1: &str = "C25-F1";
+/// subscribe before the acknowledgement closes with 1011 instead of 4401 (graphql-transport-ws)
+const F2: &str = "C25-F2";
+/// an undecodable client message closes with 1002 instead of 4400 (graphql-transport-ws) / connection_error (legacy)
+const F3: &str = "C25-F3";
+
+#[derive(Clone, Copy, PartialEq, Eq, Debug)]
+enum Proto {
+    /// graphql-transport-ws (`Protocols::GraphQLWS`)
+    Transport,
+    /// subscriptions-transport-ws, sub-protocol name `graphql-ws` (`Protocols::SubscriptionsTransportWS`)
+    Legacy,
+}
+impl Proto {
+    fn name(self) -> &'static str {
+        match self {
+            Proto::Transport => "graphql-transport-ws",
+            Proto::Legacy => "subscriptions-transport-ws",
+        }
+    }
+}
+
+const IDS: [&str; 3] = ["a", "b", "c"];
+
+#[derive(Clone, Copy, PartialEq, Eq, Debug)]
+enum Sym {
+    /// connection_init; the init callback succeeds / fails
+    Init(bool),
+    /// subscribe (transport) / start (legacy) with id
+    Sub(u8),
+    /// complete (transport) / stop (legacy) from the client
+    Done(u8),
+    Ping,
+    Pong,
+    /// connection_terminate (legacy)
+    Terminate,
+    /// a message that is not one of the protocol's messages; the variant selects the malformation
+    Bad(u8),
+    /// every executor stream created for this id that the server still holds yields one response
+    Event(u8),
+    /// ... ends
+    EndStream(u8),
+    /// the armed keep-alive delay completes
+    Timer,
+    /// the oldest waiting init / ping callback is allowed to finish (gated sessions only)
+    Release,
+    /// the client message stream ends
+    ClientEnd,
+}
+
+#[derive(Clone, Copy, Debug)]
+struct Step {
+    sym: Sym,
+    /// poll the server until it is pending after this step (false = leave it for a later step)
+    poll: bool,
+}
+
+const BAD_KINDS: u8 = 7;
+fn bad_bytes(kind: u8) -> Vec<u8> {
+    match kind {
+        0 => b"{\"type\":".to_vec(),                                      // invalid JSON
+        1 => b"{\"type\":\"bogus\"}".to_vec(),                            // unknown message type
+        2 => b"".to_vec(),
+        3 => b"[]".to_vec(),
+        4 => b"{\"type\":\"subscribe\",\"payload\":{\"query\":\"x\"}}".to_vec(), // subscribe without id
+        5 => vec![0xff, 0xfe, b'{', b'}'],                                // not UTF-8
+        _ => b"{\"id\":\"a\"}".to_vec(),                                  // no type
+    }
+}
+
+fn render_sym(p: Proto, s: Sym) -> String {
+    let id = |i: u8| IDS[i as usize];
+    match s {
+        Sym::Init(true) => "init".into(),
+        Sym::Init(false) => "init(callback-fails)".into(),
+        Sym::Sub(i) => format!("{}({})", if p == Proto::Transport { "subscribe" } else { "start" }, id(i)),
+        Sym::Done(i) => format!("{}({})", if p == Proto::Transport { "complete" } else { "stop" }, id(i)),
+        Sym::Ping => "ping".into(),
+        Sym::Pong => "pong".into(),
+        Sym::Terminate => "connection_terminate".into(),
+        Sym::Bad(0) => "invalid-json".into(),
+        Sym::Bad(1) => "unknown-type".into(),
+        Sym::Bad(k) => format!("bad-message#{}", k),
+        Sym::Event(i) => format!("event({})", id(i)),
+        Sym::EndStream(i) => format!("end({})", id(i)),
+        Sym::Timer => "timer".into(),
+        Sym::Release => "release".into(),
+        Sym::ClientEnd => "client-end".into(),
+    }
+}
+
+fn render_script(p: Proto, gated: bool, steps: &[Step]) -> String {
+    let body: Vec<String> = steps.iter().map(|s| format!("{}{}", render_sym(p, s.sym), if s.poll { "" } else { "~" })).collect();
+    format!("{}{}: {}", p.name(), if gated { " gated-callbacks" } else { "" }, body.join(" "))
+}
+
+// ---------------------------------------------------------------------------------------------------------
+// event log
+
+#[derive(Clone, Debug, PartialEq)]
+enum Msg {
+    Init,
+    Sub { id: String, token: usize },
+    Done { id: String },
+    Ping,
+    Pong,
+    Terminate,
+    Bad,
+}
+
+#[derive(Clone, Debug)]
+enum Ev {
+    /// the server took this client message from the client stream
+    Read(Msg),
+    /// the server saw the end of the client stream
+    ReadEnd,
+    /// `Executor::execute_stream` called for the subscribe message carrying this token
+    Exec(usize),
+    /// the init callback finished (true = accepted)
+    InitResult(bool),
+    Out(WsMessage),
+    OutEnd,
+}
+
+#[derive(Clone, Default)]
+struct Log(Arc<Mutex<Vec<Ev>>>);
+impl Log {
+    fn push(&self, e: Ev) {
+        self.0.lock().unwrap().push(e);
+    }
+}
+
+// ---------------------------------------------------------------------------------------------------------
+// the scripted peer
+
+struct ClientStream {
+    rx: ChanRx<(Msg, Vec<u8>)>,
+    log: Log,
+    ended: bool,
+}
+impl Stream for ClientStream {
+    type Item = Vec<u8>;
+    fn poll_next(mut self: Pin<&mut Self>, cx: &mut Context<'_>) -> Poll<Option<Vec<u8>>> {
+        if self.ended {
+            return Poll::Ready(None);
+        }
+        match Pin::new(&mut self.rx).poll_next(cx) {
+            Poll::Ready(Some((m, bytes))) => {
+                self.log.push(Ev::Read(m));
+                Poll::Ready(Some(bytes))
+            }
+            Poll::Ready(None) => {
+                self.ended = true;
+                self.log.push(Ev::ReadEnd);
+                Poll::Ready(None)
+            }
+            Poll::Pending => Poll::Pending,
+        }
+    }
+}
+
+#[derive(Clone)]
+struct FakeExecutor {
+    log: Log,
+    /// token -> the stream handed to the server
+    streams: Arc<Mutex<BTreeMap<usize, Chan<Response>>>>,
+}
+impl Executor for FakeExecutor {
+    #[allow(clippy::manual_async_fn)]
+    fn execute(&self, _request: Request) -> impl Future<Output = Response> + Send {
+        async { Response::new(GValue::Null) }
+    }
+    fn execute_stream(&self, request: Request, _session_data: Option<Arc<Data>>) -> BoxStream<'static, Response> {
+        let token: usize = request.query.parse().expect("the harness puts the token into the query");
+        let chan = Chan::new();
+        self.streams.lock().unwrap().insert(token, chan.clone());
+        self.log.push(Ev::Exec(token));
+        Box::pin(chan.rx())
+    }
+}
+
+/// manual timer: every `delay()` arms a new generation at once; `fire()` completes the armed one. (The
+/// keep-alive timer is re-armed on every client message without being polled, so a `vcore::det::Gates` gate,
+/// which registers on first poll, would not exist yet when the script wants to fire it.)
+#[derive(Default)]
+struct TimerState {
+    armed: u64,
+    fired: u64,
+}
+#[derive(Clone, Default)]
+struct ManualTimer(Arc<Mutex<TimerState>>);
+struct Delay {
+    timer: ManualTimer,
+    generation: u64,
+}
+impl Timer for ManualTimer {
+    fn delay(&self, _: Duration) -> BoxFuture<'static, ()> {
+        let mut s = self.0.lock().unwrap();
+        s.armed += 1;
+        Box::pin(Delay { timer: self.clone(), generation: s.armed })
+    }
+}
+impl Future for Delay {
+    type Output = ();
+    fn poll(self: Pin<&mut Self>, _: &mut Context<'_>) -> Poll<()> {
+        if self.timer.0.lock().unwrap().fired >= self.generation {
+            Poll::Ready(())
+        } else {
+            Poll::Pending
+        }
+    }
+}
+impl ManualTimer {
+    fn fire(&self) -> bool {
+        let mut s = self.0.lock().unwrap();
+        if s.fired < s.armed {
+            s.fired = s.armed;
+            true
+        } else {
+            false
+        }
+    }
+}
+
+// ---------------------------------------------------------------------------------------------------------
+// protocol monitor (the oracle): graphql-transport-ws PROTOCOL.md and subscriptions-transport-ws PROTOCOL.md,
+// restricted to what the property statement asserts.
+
+#[derive(Clone, Copy, PartialEq, Eq, Debug)]
+enum IdState {
+    /// a subscribe for this token was accepted and neither side has completed it
+    Live(usize),
+    /// the client completed / stopped it; the server has not said `complete` (it may, once)
+    Stopped,
+}
+
+#[derive(Clone, Debug)]
+enum Obligation {
+    /// the next thing the server sends must be Close(spec); an open finding may predict another code
+    Close { spec: u16, quirk: Option<(&'static str, u16)>, why: &'static str },
+    /// legacy: the next thing the server sends must be a connection_error message
+    ConnectionError { quirk: Option<(&'static str, u16)>, why: &'static str },
+    /// graphql-transport-ws subscribe for a live id: Close(4409); C25-F1 predicts that the executor is called
+    DuplicateId { id: String, token: usize },
+}
+
+#[derive(Clone, Copy, Default)]
+struct Open {
+    f1: bool,
+    f2: bool,
+    f3: bool,
+}
+
+#[derive(Default, Clone)]
+struct Stats {
+    acks: u32,
+    data: u32,
+    completes_after_end: u32,
+    complete_echo: u32,
+    id_reuse: u32,
+    closes: Vec<u16>,
+    dup_live: u32,
+    sub_before_ack: u32,
+    bad_msg: u32,
+    second_init: u32,
+    init_rejected: u32,
+    pongs: u32,
+    connection_errors: u32,
+    terminated: bool,
+    client_end_seen: bool,
+    max_live: usize,
+}
+
+struct Monitor {
+    proto: Proto,
+    open: Open,
+    inits_read: u32,
+    init_result: Option<bool>,
+    acked: bool,
+    /// a Close frame was sent
+    closed: bool,
+    /// the server saw connection_terminate or the end of the client stream: the socket is gone
+    peer_gone: bool,
+    ids: BTreeMap<String, IdState>,
+    /// tokens whose subscribe was read while acknowledged and not a duplicate: the executor may run them (once)
+    accepted: BTreeSet<usize>,
+    executed: BTreeSet<usize>,
+    used_ids: BTreeSet<String>,
+    pending: Option<Obligation>,
+    used: BTreeSet<&'static str>,
+    stats: Stats,
+}
+
+impl Monitor {
+    fn new(proto: Proto, open: Open) -> Monitor {
+        Monitor {
+            proto,
+            open,
+            inits_read: 0,
+            init_result: None,
+            acked: false,
+            closed: false,
+            peer_gone: false,
+            ids: BTreeMap::new(),
+            accepted: BTreeSet::new(),
+            executed: BTreeSet::new(),
+            used_ids: BTreeSet::new(),
+            pending: None,
+            used: BTreeSet::new(),
+            stats: Stats::default(),
+        }
+    }
+
+    fn is_live(&self, id: &str) -> bool {
+        matches!(self.ids.get(id), Some(IdState::Live(_)))
+    }
+
+    fn violation(&mut self, ob: Obligation) {
+        self.pending = Some(ob);
+    }
+
+    fn feed(&mut self, ev: &Ev) -> Result<(), String> {
+        // a protocol violation must be answered before anything else happens (C25-F1 predicts an executor call)
+        if let Some(ob) = &self.pending {
+            let resolves = match (ob, ev) {
+                (_, Ev::Out(_)) | (_, Ev::OutEnd) => true,
+                (Obligation::DuplicateId { .. }, Ev::Exec(_)) => true,
+                _ => false,
+            };
+            if !resolves {
+                return Err(format!("after a protocol violation ({}) the server went on ({:?}) instead of closing", describe(ob), ev));
+            }
+        }
+        match ev {
+            Ev::Read(m) => self.read(m),
+            Ev::ReadEnd => {
+                self.peer_gone = true;
+                self.stats.client_end_seen = true;
+                Ok(())
+            }
+            Ev::InitResult(ok) => {
+                self.init_result = Some(*ok);
+                if !ok {
+                    self.stats.init_rejected += 1;
+                }
+                Ok(())
+            }
+            Ev::Exec(token) => self.exec(*token),
+            Ev::Out(WsMessage::Close(code, reason)) => self.close(*code, reason),
+            Ev::Out(WsMessage::Text(t)) => self.text(t),
+            Ev::OutEnd => {
+                if let Some(ob) = self.pending.take() {
+                    return Err(format!("the server ended the session without answering a protocol violation: {}", describe(&ob)));
+                }
+                Ok(())
+            }
+        }
+    }
+
+    fn read(&mut self, m: &Msg) -> Result<(), String> {
+        match m {
+            Msg::Init => {
+                self.inits_read += 1;
+                if self.inits_read > 1 {
+                    self.stats.second_init += 1;
+                    self.violation(match self.proto {
+                        Proto::Transport => Obligation::Close { spec: 4429, quirk: None, why: "second connection_init" },
+                        Proto::Legacy => Obligation::ConnectionError { quirk: None, why: "second connection_init" },
+                    });
+                }
+            }
+            Msg::Sub { id, token } => {
+                if !self.acked {
+                    self.stats.sub_before_ack += 1;
+                    if self.proto == Proto::Transport {
+                        self.violation(Obligation::Close { spec: 4401, quirk: Some((F2, 1011)), why: "subscribe before connection_ack" });
+                    }
+                    // legacy: the document does not say what happens; the operation just must not run
+                } else if self.is_live(id) {
+                    self.stats.dup_live += 1;
+                    match self.proto {
+                        Proto::Transport => self.violation(Obligation::DuplicateId { id: id.clone(), token: *token }),
+                        Proto::Legacy => {
+                            // not defined by the legacy document; the reference server unsubscribes the old
+                            // operation and starts the new one
+                            self.ids.insert(id.clone(), IdState::Live(*token));
+                            self.accepted.insert(*token);
+                        }
+                    }
+                } else {
+                    if !self.used_ids.insert(id.clone()) {
+                        self.stats.id_reuse += 1;
+                    }
+                    self.ids.insert(id.clone(), IdState::Live(*token));
+                    self.accepted.insert(*token);
+                    let live = self.ids.values().filter(|s| matches!(s, IdState::Live(_))).count();
+                    self.stats.max_live = self.stats.max_live.max(live);
+                }
+            }
+            Msg::Done { id } => {
+                if self.is_live(id) {
+                    self.ids.insert(id.clone(), IdState::Stopped);
+                }
+            }
+            Msg::Ping | Msg::Pong => {}
+            Msg::Terminate => {
+                self.peer_gone = true;
+                self.stats.terminated = true;
+            }
+            Msg::Bad => {
+                self.stats.bad_msg += 1;
+                self.violation(match self.proto {
+                    Proto::Transport => Obligation::Close { spec: 4400, quirk: Some((F3, 1002)), why: "message of unknown type or format" },
+                    Proto::Legacy => Obligation::ConnectionError { quirk: Some((F3, 1002)), why: "message of unknown type or format" },
+                });
+            }
+        }
+        Ok(())
+    }
+
+    fn exec(&mut self, token: usize) -> Result<(), String> {
+        if let Some(Obligation::DuplicateId { id, token: t }) = self.pending.clone() {
+            if t == token && self.open.f1 {
+                // C25-F1: the new operation replaces the live one
+                self.used.insert(F1);
+                self.pending = None;
+                self.ids.insert(id, IdState::Live(token));
+                self.executed.insert(token);
+                return Ok(());
+            }
+            return Err(format!("subscribe for id {:?} that is already live: the operation was executed; the protocol demands Close(4409)", id));
+        }
+        if !self.acked {
+            return Err("an operation was executed before the connection was acknowledged".into());
+        }
+        if !self.accepted.contains(&token) {
+            return Err(format!("operation #{} was executed although its subscribe message was not acceptable", token));
+        }
+        if !self.executed.insert(token) {
+            return Err(format!("operation #{} was executed twice", token));
+        }
+        Ok(())
+    }
+
+    fn close(&mut self, code: u16, reason: &str) -> Result<(), String> {
+        if self.closed {
+            return Err(format!("a second Close({}, {:?}) was sent after a Close", code, reason));
+        }
+        self.closed = true;
+        self.stats.closes.push(code);
+        match self.pending.take() {
+            None => Ok(()), // keep-alive expiry, rejected init, legacy start before ack: no code demanded
+            Some(Obligation::Close { spec, quirk, why }) => {
+                if code == spec {
+                    Ok(())
+                } else if let Some((fid, _)) = quirk.filter(|(fid, qcode)| *qcode == code && self.is_open(fid)) {
+                    self.used.insert(fid);
+                    Ok(())
+                } else {
+                    Err(format!("{}: closed with {} ({:?}); the protocol demands {}", why, code, reason, spec))
+                }
+            }
+            Some(Obligation::ConnectionError { quirk, why }) => {
+                if let Some((fid, _)) = quirk.filter(|(fid, qcode)| *qcode == code && self.is_open(fid)) {
+                    self.used.insert(fid);
+                    Ok(())
+                } else {
+                    Err(format!("{}: closed with {} ({:?}); the legacy protocol answers with a connection_error message", why, code, reason))
+                }
+            }
+            Some(Obligation::DuplicateId { id, .. }) => {
+                if code == 4409 {
+                    Ok(())
+                } else {
+                    Err(format!("subscribe for live id {:?}: closed with {}; the protocol demands 4409", id, code))
+                }
+            }
+        }
+    }
+
+    fn is_open(&self, fid: &str) -> bool {
+        (fid == F1 && self.open.f1) || (fid == F2 && self.open.f2) || (fid == F3 && self.open.f3)
+    }
+
+    fn text(&mut self, t: &str) -> Result<(), String> {
+        if self.closed {
+            return Err(format!("message sent after a Close frame: {}", t));
+        }
+        if self.peer_gone {
+            return Err(format!("message sent after the client terminated the connection: {}", t));
+        }
+        let v: Json = serde_json::from_str(t).map_err(|e| format!("server message is not JSON ({}): {}", e, t))?;
+        let ty = v["type"].as_str().ok_or_else(|| format!("server message without type: {}", t))?.to_string();
+        let vocabulary: &[&str] = match self.proto {
+            Proto::Transport => &["connection_ack", "ping", "pong", "next", "error", "complete"],
+            Proto::Legacy => &["connection_error", "connection_ack", "data", "error", "complete", "ka"],
+        };
+        if !vocabulary.contains(&ty.as_str()) {
+            return Err(format!("message type {:?} does not exist in {}: {}", ty, self.proto.name(), t));
+        }
+        match self.pending.take() {
+            None => {}
+            Some(Obligation::ConnectionError { .. }) if ty == "connection_error" => {}
+            Some(ob) => return Err(format!("{}; the server sent {} instead", describe(&ob), t)),
+        }
+        match ty.as_str() {
+            "connection_ack" => {
+                if self.acked {
+                    return Err("connection_ack sent twice".into());
+                }
+                if self.inits_read == 0 || self.init_result != Some(true) {
+                    return Err("connection_ack without an accepted connection_init".into());
+                }
+                self.acked = true;
+                self.stats.acks += 1;
+            }
+            "connection_error" => self.stats.connection_errors += 1,
+            "ping" | "ka" => {}
+            "pong" => self.stats.pongs += 1,
+            "next" | "data" | "error" | "complete" => {
+                let id = v["id"].as_str().ok_or_else(|| format!("operation message without id: {}", t))?.to_string();
+                if !self.acked {
+                    return Err(format!("operation message before connection_ack: {}", t));
+                }
+                match (ty.as_str(), self.ids.get(&id).copied()) {
+                    ("next", Some(IdState::Live(token))) | ("data", Some(IdState::Live(token))) => {
+                        let from = v["payload"]["data"]["t"].as_u64();
+                        if from != Some(token as u64) {
+                            return Err(format!("{} for id {:?} carries a result of operation #{:?}, but the live operation under that id is #{}: {}", ty, id, from, token, t));
+                        }
+                        self.stats.data += 1;
+                    }
+                    ("next", st) | ("data", st) => {
+                        return Err(format!("{} for id {:?} which is not live ({}): {}", ty, id, match st {
+                            Some(IdState::Stopped) => "the client completed it",
+                            _ => "never subscribed, or already completed",
+                        }, t));
+                    }
+                    ("error", Some(IdState::Live(_))) => {
+                        self.ids.remove(&id);
+                    }
+                    ("complete", Some(st)) => {
+                        if st == IdState::Stopped {
+                            self.stats.complete_echo += 1;
+                        } else {
+                            self.stats.completes_after_end += 1;
+                        }
+                        self.ids.remove(&id);
+                    }
+                    _ => return Err(format!("{} for id {:?} which has no live operation (completed twice, or never started): {}", ty, id, t)),
+                }
+            }
+            _ => unreachable!(),
+        }
+        Ok(())
+    }
+
+    fn finish(&mut self) -> Result<(), String> {
+        match self.pending.take() {
+            None => Ok(()),
+            Some(ob) => Err(format!("the server did not answer a protocol violation: {}", describe(&ob))),
+        }
+    }
+}
+
+fn describe(ob: &Obligation) -> String {
+    match ob {
+        Obligation::Close { spec, why, .. } => format!("{} must be answered with Close({})", why, spec),
+        Obligation::ConnectionError { why, .. } => format!("{} must be answered with a connection_error message", why),
+        Obligation::DuplicateId { id, .. } => format!("subscribe for the live id {:?} must be answered with Close(4409)", id),
+    }
+}
+
+// ---------------------------------------------------------------------------------------------------------
+// session driver
+
+struct Session {
+    proto: Proto,
+    ws: Pin<Box<dyn Stream<Item = WsMessage>>>,
+    client: Chan<(Msg, Vec<u8>)>,
+    streams: Arc<Mutex<BTreeMap<usize, Chan<Response>>>>,
+    timer: ManualTimer,
+    gates: Gates,
+    log: Log,
+    fed: usize,
+    mon: Monitor,
+    next_token: usize,
+    token_id: Vec<u8>,
+    seq: u64,
+    pushed: usize,
+    reads: usize,
+    client_closed: bool,
+    out_ended: bool,
+    failure: Option<String>,
+    delivered_events: u32,
+    deferred: bool,
+    releases: u32,
+    timer_fires: u32,
+}
+
+impl Session {
+    fn new(proto: Proto, gated: bool, open: Open) -> Session {
+        let log = Log::default();
+        let client: Chan<(Msg, Vec<u8>)> = Chan::new();
+        let streams = Arc::new(Mutex::new(BTreeMap::new()));
+        let exec = FakeExecutor { log: log.clone(), streams: streams.clone() };
+        let timer = ManualTimer::default();
+        let gates = Gates::new();
+        let cs = ClientStream { rx: client.rx(), log: log.clone(), ended: false };
+        let wsproto = match proto {
+            Proto::Transport => WebSocketProtocols::GraphQLWS,
+            Proto::Legacy => WebSocketProtocols::SubscriptionsTransportWS,
+        };
+        let (g1, l1) = (gates.clone(), log.clone());
+        let g2 = gates.clone();
+        let ws = WebSocket::new(exec, cs, wsproto)
+            .on_connection_init(move |payload: Json| async move {
+                g1.wait_or_pass("init-callback", !gated).await;
+                let ok = payload["ok"] != Json::Bool(false);
+                l1.push(Ev::InitResult(ok));
+                if ok {
+                    Ok(Data::default())
+                } else {
+                    Err(Error::new("rejected by the init callback"))
+                }
+            })
+            .on_ping(move |_data: Option<&Data>, payload: Option<Json>| {
+                let g = g2.clone();
+                async move {
+                    g.wait_or_pass("ping-callback", !gated).await;
+                    Ok(payload)
+                }
+            })
+            .keepalive_timeout(timer.clone(), Duration::from_secs(60));
+        Session {
+            proto,
+            ws: Box::pin(ws),
+            client,
+            streams,
+            timer,
+            gates,
+            log,
+            fed: 0,
+            mon: Monitor::new(proto, open),
+            next_token: 0,
+            token_id: vec![],
+            seq: 0,
+            pushed: 0,
+            reads: 0,
+            client_closed: false,
+            out_ended: false,
+            failure: None,
+            delivered_events: 0,
+            deferred: false,
+            releases: 0,
+            timer_fires: 0,
+        }
+    }
+
+    fn send(&mut self, m: Msg, bytes: Vec<u8>) {
+        if !self.client_closed {
+            self.pushed += 1;
+            self.client.push((m, bytes));
+        }
+    }
+
+    fn act(&mut self, sym: Sym) {
+        let t = self.proto == Proto::Transport;
+        match sym {
+            Sym::Init(ok) => self.send(Msg::Init, json!({"type": "connection_init", "payload": {"ok": ok}}).to_string().into_bytes()),
+            Sym::Sub(i) => {
+                let token = self.next_token;
+                self.next_token += 1;
+                self.token_id.push(i);
+                let id = IDS[i as usize];
+                let ty = if t { "subscribe" } else { "start" };
+                self.send(Msg::Sub { id: id.into(), token }, json!({"type": ty, "id": id, "payload": {"query": token.to_string()}}).to_string().into_bytes());
+            }
+            Sym::Done(i) => {
+                let id = IDS[i as usize];
+                let ty = if t { "complete" } else { "stop" };
+                self.send(Msg::Done { id: id.into() }, json!({"type": ty, "id": id}).to_string().into_bytes());
+            }
+            Sym::Ping => self.send(Msg::Ping, json!({"type": "ping", "payload": {"k": 1}}).to_string().into_bytes()),
+            Sym::Pong => self.send(Msg::Pong, json!({"type": "pong"}).to_string().into_bytes()),
+            Sym::Terminate => self.send(Msg::Terminate, json!({"type": "connection_terminate"}).to_string().into_bytes()),
+            Sym::Bad(k) => self.send(Msg::Bad, bad_bytes(k)),
+            Sym::Event(i) | Sym::EndStream(i) => {
+                let chans: Vec<(usize, Chan<Response>)> = self.streams.lock().unwrap().iter().filter(|(tok, c)| self.token_id[**tok] == i && !c.rx_dropped() && !c.is_closed()).map(|(k, c)| (*k, c.clone())).collect();
+                for (token, c) in chans {
+                    if let Sym::Event(_) = sym {
+                        self.seq += 1;
+                        self.delivered_events += 1;
+                        c.push(Response::new(GValue::from_json(json!({"t": token, "n": self.seq})).unwrap()));
+                    } else {
+                        c.close();
+                    }
+                }
+            }
+            Sym::Timer => {
+                if self.timer.fire() {
+                    self.timer_fires += 1;
+                }
+            }
+            Sym::Release => {
+                if let Some((idx, _)) = self.gates.pending().first() {
+                    self.gates.open(*idx);
+                    self.releases += 1;
+                }
+            }
+            Sym::ClientEnd => {
+                self.client_closed = true;
+                self.client.close();
+            }
+        }
+    }
+
+    fn drain(&mut self) {
+        let w = noop_waker();
+        let mut cx = Context::from_waker(&w);
+        let mut n = 0;
+        while !self.out_ended {
+            match self.ws.as_mut().poll_next(&mut cx) {
+                Poll::Ready(Some(m)) => self.log.push(Ev::Out(m)),
+                Poll::Ready(None) => {
+                    self.log.push(Ev::OutEnd);
+                    self.out_ended = true;
+                }
+                Poll::Pending => break,
+            }
+            n += 1;
+            if n > 10_000 {
+                self.failure.get_or_insert_with(|| "the server produced more than 10000 messages without becoming pending".into());
+                break;
+            }
+        }
+    }
+
+    fn judge(&mut self) {
+        let new: Vec<Ev> = {
+            let l = self.log.0.lock().unwrap();
+            l[self.fed..].to_vec()
+        };
+        self.fed += new.len();
+        for ev in &new {
+            if matches!(ev, Ev::Read(_)) {
+                self.reads += 1;
+            }
+            if self.failure.is_none() {
+                if let Err(e) = self.mon.feed(ev) {
+                    self.failure = Some(e);
+                }
+            }
+        }
+    }
+
+    fn step(&mut self, st: Step) {
+        self.act(st.sym);
+        if st.poll {
+            self.drain();
+            self.judge();
+        } else {
+            self.deferred = true;
+        }
+    }
+
+    fn finish(&mut self) {
+        self.drain();
+        self.judge();
+        if self.failure.is_none() {
+            if let Err(e) = self.mon.finish() {
+                self.failure = Some(e);
+            }
+        }
+    }
+
+    /// everything the client has sent has been read by the server
+    fn client_queue_empty(&self) -> bool {
+        self.reads >= self.pushed
+    }
+
+    /// what the server sent, compactly (part of the rendered case)
+    fn sent(&self) -> String {
+        let l = self.log.0.lock().unwrap();
+        let items: Vec<String> = l
+            .iter()
+            .filter_map(|e| match e {
+                Ev::Out(WsMessage::Text(t)) => {
+                    let v: Json = serde_json::from_str(t).unwrap_or(Json::Null);
+                    Some(match (v["type"].as_str(), v["id"].as_str()) {
+                        (Some(ty), Some(id)) => format!("{}({})", ty, id),
+                        (Some(ty), None) => ty.to_string(),
+                        _ => "?".into(),
+                    })
+                }
+                Ev::Out(WsMessage::Close(c, _)) => Some(format!("Close({})", c)),
+                Ev::OutEnd => Some("END".into()),
+                _ => None,
+            })
+            .collect();
+        items.join(" ")
+    }
+
+    fn trace(&self) -> String {
+        let l = self.log.0.lock().unwrap();
+        let items: Vec<String> = l
+            .iter()
+            .map(|e| match e {
+                Ev::Read(Msg::Sub { id, token }) => format!("read:subscribe({})#{}", id, token),
+                Ev::Read(Msg::Done { id }) => format!("read:complete({})", id),
+                Ev::Read(m) => format!("read:{:?}", m),
+                Ev::ReadEnd => "read:end".into(),
+                Ev::Exec(t) => format!("exec#{}", t),
+                Ev::InitResult(ok) => format!("init-callback:{}", if *ok { "ok" } else { "err" }),
+                Ev::Out(WsMessage::Text(t)) => format!("SEND {}", t),
+                Ev::Out(WsMessage::Close(c, r)) => format!("CLOSE({}, {:?})", c, r),
+                Ev::OutEnd => "END".into(),
+            })
+            .collect();
+        items.join(" ; ")
+    }
+}
+
+struct Verdict {
+    case: Case,
+    ended: bool,
+    /// constructs of the known findings that the server actually met in this script
+    dup_live: bool,
+    sub_before_ack: bool,
+    bad_msg: bool,
+}
+
+fn conclude(proto: Proto, gated: bool, steps: &[Step], mut s: Session) -> Verdict {
+    s.finish();
+    let text = format!("{} => {}", render_script(proto, gated, steps), s.sent());
+    let st = s.mon.stats.clone();
+    let c = match (&s.failure, s.mon.used.is_empty()) {
+        (Some(why), _) => Case::fail(text, format!("{} || trace: {}", why, s.trace())),
+        (None, true) => Case::pass(text),
+        (None, false) => Case::known(text, s.mon.used.iter().map(|x| x.to_string()).collect()),
+    };
+    let nontrivial = s.delivered_events > 0;
+    let c = c
+        .nontrivial(nontrivial)
+        .class(proto.name())
+        .class_if(gated, "gated-callbacks")
+        .class_if(st.acks > 0, "acknowledged")
+        .class_if(st.data > 0, "data-delivered")
+        .class_if(st.data >= 2, "data>=2")
+        .class_if(st.max_live >= 2, "concurrent-operations")
+        .class_if(st.completes_after_end > 0, "complete-after-stream-end")
+        .class_if(st.complete_echo > 0, "complete-after-client-stop")
+        .class_if(st.id_reuse > 0, "id-reused-after-completion")
+        .class_if(st.second_init > 0, "second-init")
+        .class_if(st.init_rejected > 0, "init-rejected")
+        .class_if(st.dup_live > 0, "duplicate-live-id")
+        .class_if(st.sub_before_ack > 0, "subscribe-before-ack")
+        .class_if(st.bad_msg > 0, "bad-message")
+        .class_if(st.pongs > 0, "pong-sent")
+        .class_if(st.connection_errors > 0, "connection_error-sent")
+        .class_if(st.terminated, "client-terminate")
+        .class_if(st.client_end_seen, "client-stream-end")
+        .class_if(s.timer_fires > 0, "keepalive-expired")
+        .class_if(!st.closes.is_empty(), "close-frame")
+        .class_if(s.deferred, "deferred-polls")
+        .class_if(s.releases > 0, "callback-released-later")
+        .class_if(s.out_ended && (st.data > 0), "ended-after-data");
+    Verdict { case: c, ended: s.out_ended, dup_live: st.dup_live > 0 && proto == Proto::Transport, sub_before_ack: st.sub_before_ack > 0 && proto == Proto::Transport, bad_msg: st.bad_msg > 0 }
+}
+
+fn run_fixed(proto: Proto, gated: bool, steps: &[Step], open: Open) -> Verdict {
+    let mut s = Session::new(proto, gated, open);
+    for st in steps {
+        if s.out_ended {
+            break;
+        }
+        s.step(*st);
+    }
+    conclude(proto, gated, steps, s)
+}
+
+// ---------------------------------------------------------------------------------------------------------
+// enumeration
+
+fn alphabet(proto: Proto, gated: bool, ids: u8) -> Vec<Sym> {
+    let mut a = vec![Sym::Init(true), Sym::Init(false)];
+    for i in 0..ids {
+        a.push(Sym::Sub(i));
+    }
+    for i in 0..ids {
+        a.push(Sym::Done(i));
+    }
+    match proto {
+        Proto::Transport => a.extend([Sym::Ping, Sym::Pong]),
+        Proto::Legacy => a.push(Sym::Terminate),
+    }
+    a.extend([Sym::Bad(0), Sym::Bad(1)]);
+    for i in 0..ids {
+        a.push(Sym::Event(i));
+    }
+    for i in 0..ids {
+        a.push(Sym::EndStream(i));
+    }
+    a.push(Sym::Timer);
+    if gated {
+        a.push(Sym::Release);
+    }
+    a.push(Sym::ClientEnd);
+    a
+}
+
+/// greedy one-step-removal minimisation of a failing script
+fn minimise(proto: Proto, gated: bool, mut steps: Vec<Step>, open: Open) -> Vec<Step> {
+    loop {
+        let mut shrunk = false;
+        for i in 0..steps.len() {
+            let mut t = steps.clone();
+            t.remove(i);
+            if run_fixed(proto, gated, &t, open).case.is_fail() {
+                steps = t;
+                shrunk = true;
+                break;
+            }
+        }
+        if !shrunk {
+            return steps;
+        }
+    }
+}
+
+struct EnumCfg {
+    stream: &'static str,
+    max_len: usize,
+    /// leave out scripts in which the server meets the construct of an open finding
+    exclude_open: bool,
+}
+
+/// All scripts over the alphabet up to `max_len`, depth first. A prefix after which the server's message stream
+/// has ended is not extended (an ended stream is never polled again, so every extension behaves like the
+/// prefix). Returns true on a violation.
+fn enumerate(ctx: &mut Ctx, cfg: &EnumCfg, open: Open) -> bool {
+    let t0 = Instant::now();
+    let mut n = 0u64;
+    for proto in [Proto::Transport, Proto::Legacy] {
+        for gated in [false, true] {
+            let alpha = alphabet(proto, gated, 2);
+            let mut stack: Vec<Vec<Step>> = vec![vec![]];
+            while let Some(script) = stack.pop() {
+                let v = run_fixed(proto, gated, &script, open);
+                if cfg.exclude_open {
+                    let mut skip = false;
+                    for (hit, on, fid) in [(v.dup_live, open.f1, F1), (v.sub_before_ack, open.f2, F2), (v.bad_msg, open.f3, F3)] {
+                        if hit && on {
+                            ctx.excluded(fid);
+                            skip = true;
+                        }
+                    }
+                    if skip {
+                        continue; // every extension contains the construct too
+                    }
+                }
+                n += 1;
+                if v.case.is_fail() {
+                    let small = minimise(proto, gated, script.clone(), open);
+                    let vs = run_fixed(proto, gated, &small, open);
+                    let c = if vs.case.is_fail() { vs.case } else { v.case };
+                    ctx.check_case(cfg.stream, c, json!({"script": render_script(proto, gated, &small), "found_as": render_script(proto, gated, &script)}));
+                    ctx.enumerated(cfg.stream, n, false, t0);
+                    return true;
+                }
+                ctx.check_case(cfg.stream, v.case.class("enumerated"), Json::Null);
+                if script.len() >= cfg.max_len || v.ended {
+                    continue;
+                }
+                for sym in alpha.iter().rev() {
+                    let mut next = script.clone();
+                    next.push(Step { sym: *sym, poll: true });
+                    stack.push(next);
+                }
+            }
+        }
+    }
+    ctx.enumerated(cfg.stream, n, true, t0);
+    false
+}
+
+// ---------------------------------------------------------------------------------------------------------
+// random scripts
+
+fn random_case(s: &mut dyn Src, open: Open, exclude_open: bool) -> Case {
+    let proto = if s.bool() { Proto::Legacy } else { Proto::Transport };
+    let gated = s.chance(1, 3);
+    let len = 1 + s.choose(30);
+    let mut sess = Session::new(proto, gated, open);
+    let mut steps: Vec<Step> = vec![];
+    for _ in 0..len {
+        if sess.out_ended {
+            break;
+        }
+        let transport = proto == Proto::Transport;
+        let id = s.weighted(&[5, 3, 1]) as u8;
+        // what the generator may send next without meeting the construct of an open finding (judged from what
+        // the monitor has seen so far; a wrong guess only means the case is attributed to the finding)
+        let settled = sess.client_queue_empty();
+        let may_sub = !exclude_open || !transport || ((!open.f2 || (sess.mon.acked && settled)) && (!open.f1 || (!sess.mon.is_live(IDS[id as usize]) && settled)));
+        let may_bad = !exclude_open || !open.f3;
+        let w = [
+            if sess.mon.inits_read == 0 && settled { 60 } else { 2 }, // init
+            1,                                               // init, callback fails
+            if !may_sub { 0 } else if sess.mon.acked { 14 } else { 1 }, // subscribe
+            6,                                               // complete
+            if transport { 3 } else { 0 },                   // ping
+            if transport { 1 } else { 0 },                   // pong
+            if transport { 0 } else { 1 },                   // terminate
+            if may_bad { 1 } else { 0 },                     // bad message
+            24,                                              // stream event
+            6,                                               // stream end
+            1,                                               // timer
+            if gated { 10 } else { 0 },                      // release
+            1,                                               // client end
+        ];
+        let sym = match s.weighted(&w) {
+            0 => Sym::Init(true),
+            1 => Sym::Init(false),
+            2 => Sym::Sub(id),
+            3 => Sym::Done(id),
+            4 => Sym::Ping,
+            5 => Sym::Pong,
+            6 => Sym::Terminate,
+            7 => Sym::Bad(s.choose(BAD_KINDS as usize) as u8),
+            8 => Sym::Event(id),
+            9 => Sym::EndStream(id),
+            10 => Sym::Timer,
+            11 => Sym::Release,
+            _ => Sym::ClientEnd,
+        };
+        let st = Step { sym, poll: !s.chance(1, 4) };
+        steps.push(st);
+        sess.step(st);
+    }
+    conclude(proto, gated, &steps, sess).case.class("random")
+}
+
+// ---------------------------------------------------------------------------------------------------------
+
+pub fn run(ctx: &mut Ctx) {
+    ctx.rule = "client/peer scripts over {connection_init (callback ok / fails), subscribe|start(id), complete|stop(id), ping, pong, connection_terminate, \
+                invalid JSON, unknown type, stream event(id), stream end(id), keep-alive expiry, release of a waiting init/ping callback, client stream end} \
+                for both protocols, with immediate and with gated callbacks; all scripts up to the length bound (ids a,b; server polled to quiescence after \
+                every step), random scripts up to length 30 (ids a,b,c; deferred polls; 7 kinds of malformed message); \
+                non-trivial = at least one stream event reached a stream the server was holding (after an executed subscribe); distinct by script"
+        .into();
+    ctx.assume("client messages count from the moment the server reads them from the client stream (the harness logs the read), so a message queued behind a waiting callback is judged in the state in which the server meets it");
+    ctx.assume("the server is polled explicitly (spurious polls are legal); wake-ups / liveness (e.g. that a pong or a data message is eventually sent) are not asserted");
+    ctx.assume("each protocol is driven with its own message names: subscribe/complete/ping/pong for graphql-transport-ws, start/stop/connection_terminate for the legacy protocol; names of the other protocol (accepted by the crate through serde aliases) are a don't-care class and not sent");
+    ctx.assume("a `complete` from the server after the client's own complete/stop is accepted (it is the operation's single complete); next/data after it is not");
+    ctx.assume("legacy protocol: start before connection_ack and start with a live id are not defined by the protocol document: before the ack the operation must not run (any close / error / ignore accepted); with a live id the new operation replaces the old one (reference-server behaviour) and data of the old one is then foreign");
+    ctx.assume("a rejected connection_init (callback error) is not a client protocol violation; graphql-transport-ws only recommends 4403: the close code is not asserted, only that no connection_ack follows (tests pin 1002)");
+    ctx.assume("keep-alive expiry: the close code / message is not defined by the protocol documents and not asserted; afterwards nothing may be sent");
+    ctx.assume("legacy protocol violations (second init, undecodable message) must be answered with a connection_error message; whether the session then ends is a don't-care");
+    ctx.assume("after connection_terminate or after the client stream ended the socket counts as closed: no further message may be sent");
+    ctx.assume("data/next messages are attributed to operations by a token the fake executor puts into every response; order and completeness of delivery within an operation are not asserted");
+    ctx.assume("the WebSocket stream is not polled again after it returned None");
+    ctx.assume("HashMap iteration order inside the server decides which of two simultaneously ready operations is served first; the monitor is insensitive to it");
+
+    let open = Open { f1: ctx.open(F1), f2: ctx.open(F2), f3: ctx.open(F3) };
+
+    // witnesses of the known findings (regression cases; they produce the KNOWN-FINDING lines while open and
+    // must pass strictly once a finding is fixed)
+    let p = |sym| Step { sym, poll: true };
+    let witnesses: Vec<(Proto, Vec<Step>)> = vec![
+        (Proto::Transport, vec![p(Sym::Init(true)), p(Sym::Sub(0)), p(Sym::Sub(0)), p(Sym::Event(0))]),
+        (Proto::Transport, vec![p(Sym::Sub(0))]),
+        (Proto::Transport, vec![p(Sym::Bad(0))]),
+        (Proto::Transport, vec![p(Sym::Init(true)), p(Sym::Bad(1))]),
+        (Proto::Legacy, vec![p(Sym::Init(true)), p(Sym::Bad(0))]),
+        (Proto::Legacy, vec![p(Sym::Bad(1))]),
+    ];
+    for (proto, steps) in &witnesses {
+        let v = run_fixed(*proto, false, steps, open);
+        if ctx.check_case("witnesses", v.case.class("witness"), json!({"script": render_script(*proto, false, steps)})) {
+            return;
+        }
+    }
+
+    // probe: everything enabled, shorter bound (this is where the constructs of open findings are exercised)
+    let any_open = open.f1 || open.f2 || open.f3;
+    if any_open {
+        let probe = EnumCfg { stream: "probe-all-constructs", max_len: ctx.tier.pick(4, 5), exclude_open: false };
+        if enumerate(ctx, &probe, open) {
+            return;
+        }
+    }
+
+    // main enumeration
+    let bound = ctx.tier.pick(5, 6);
+    ctx.note("enumeration_bound_steps", json!(bound));
+    ctx.note(
+        "enumeration_domain",
+        json!("all scripts up to the bound over the per-protocol alphabet with ids a,b, for {immediate, gated} callbacks; prefixes after which the server's stream ended are not extended; \
+               while a finding is open, scripts in which the server meets its construct (duplicate live id / subscribe before ack under graphql-transport-ws, undecodable message) are left out of `all-scripts` \
+               (count in excluded_by_construction) and covered by `probe-all-constructs` at a smaller bound"),
+    );
+    let main = EnumCfg { stream: "all-scripts", max_len: bound, exclude_open: any_open };
+    if enumerate(ctx, &main, open) {
+        return;
+    }
+    ctx.exhaustive = Some(true);
+
+    let n = ctx.tier.pick(400_000, 10_000_000);
+    ctx.stream("random", n, 160, |s| random_case(s, open, any_open));
+    if any_open {
+        ctx.stream("random-probe", n / 8, 160, |s| random_case(s, open, false).class("probe"));
+    }
+
+    ctx.floor("data-delivered", 2000);
+    ctx.floor("complete-after-stream-end", 500);
+    ctx.floor("complete-after-client-stop", 500);
+    ctx.floor("id-reused-after-completion", 100);
+    ctx.floor("second-init", 500);
+    ctx.floor("keepalive-expired", 500);
+    ctx.floor("callback-released-later", 500);
+    ctx.floor("deferred-polls", 1000);
+    ctx.floor("concurrent-operations", 1000);
 }
